@@ -7,6 +7,8 @@ CONSTANTS
     Topos <- MCLoopOnly
     StopKinds = {"close"}
     AllowFail = TRUE
+    MaxN = 3
+    MaxE = 4
     InfluxStopF = FALSE
     ReaderDone = TRUE
     AlertCloseOnErr = TRUE
